@@ -51,17 +51,22 @@ DuplexFaultJson == [DuplexFault EXCEPT !.cl.codec = "json"]
 \* its message buffer is by then somebody else's)
 RespUndecodable == [OkStreamGzip EXCEPT !.cl.frames = <<Frame(1, TRUE)>>, !.cl.method = "SStream",
                                        !.hd.frames = <<[Frame(9, TRUE) EXCEPT !.fault = "undecodable"]>>, !.hd.nestbig = TRUE]
+\* a Connect GET whose message travels compressed in the query string
+GetGzip == [Base EXCEPT !.cl.form = "connect_get", !.cl.major = 1, !.cl.codec = "json", !.cl.comp = "gzip", !.cl.accept = <<"gzip">>,
+                        !.cl.method = "Query", !.cl.frames = <<Frame(1, TRUE)>>]
+\* the backend's (binary) reply cannot be written in the client's codec (a timestamp out of JSON's range)
+BadTimestamp == [msgs |-> [x \in {"9"} |-> "badts"]] @@ OkUnary
 BackendPanic == [OkUnary EXCEPT !.hd.exit = "panic"]
 BackendError == [OkStreamGzip EXCEPT !.hd.end.code = 8, !.hd.errat = 0]
 BigResponse == [msgs |-> [x \in {"9"} |-> "size:5000"]] @@ OkUnary
 
 Kinds == {OkUnary, OkStreamGzip, RejectCodec, CutMid, Oversize, OversizeMeasure, CutMeasure, GzCorrupt, NotGzip, Undecodable,
-          BackendPanic, BackendError, BigResponse, CloseRace, DuplexFault, DuplexFaultJson, RespUndecodable}
-Probes == {OkUnary, OkStreamGzip, OkRest, OkServerStream}
+          BackendPanic, BackendError, BigResponse, CloseRace, DuplexFault, DuplexFaultJson, RespUndecodable, GetGzip, BadTimestamp}
+Probes == {OkUnary, OkStreamGzip, OkRest, OkServerStream, GetGzip}
 
 HInit == hist = <<>> /\ pr = OkUnary /\ hph = "grow" /\ Init
 Grow == /\ hph = "grow" /\ Len(hist) < (IF What = "history" THEN MaxHist ELSE NConc)
-        /\ \E k \in (IF What = "history" THEN Kinds ELSE Probes \cup {CutMid, Oversize, OversizeMeasure, GzCorrupt, NotGzip, BackendError, CloseRace, DuplexFault, DuplexFaultJson, RespUndecodable}) : hist' = Append(hist, k)
+        /\ \E k \in (IF What = "history" THEN Kinds ELSE Probes \cup {CutMid, Oversize, OversizeMeasure, GzCorrupt, NotGzip, BackendError, CloseRace, DuplexFault, DuplexFaultJson, RespUndecodable, GetGzip, BadTimestamp}) : hist' = Append(hist, k)
         /\ UNCHANGED <<pr, hph>>
 Pick == /\ hph = "grow"
         /\ (What = "conc" => Len(hist) >= 2)
